@@ -108,6 +108,33 @@ def shard(idx, n, tier):
         record(res, {"design": {k: spec[k] for k in spec if k != "features"}}, v, "generated")
 
     run()
+
+    # designs whose designer-chosen names collide with the names elaboration invents (generator shared with C05):
+    # whatever package comes out of them must be closed as well
+    from . import c05
+    from hypothesis import strategies as st
+    opts5 = gen.Opts(max_modules=3, max_insts=4, wide=False, named_nc=True, adversarial_leaf_names=True)
+
+    @hypothesis.seed(env.subseed(PID, "adv", idx))
+    @settings(max_examples=max(1, nex // 4), database=None, deadline=None, derandomize=False,
+              suppress_health_check=list(HealthCheck), phases=[Phase.generate], report_multiple_bugs=False)
+    @given(st.data())
+    def run_adv(data):
+        spec = data.draw(gen.designs(opts5))
+        inv = par.pristine(c05.learn_invented, spec)
+        if par.is_exc(inv):
+            return
+        case = c05.make_case(gen.D(data.draw), spec, inv)
+        sp = case["spec"] if case else {k: spec[k] for k in spec if k != "features"}
+        v = par.pristine(eval_design, sp)
+        if par.is_exc(v):
+            res.harness_error("design: %s %s %s" % (v[1], v[2], v[3][-600:]))
+            return
+        if v["status"] == "ok":
+            v["feats"] = list(v["feats"]) + ["adversarial_names"]
+        record(res, {"design": sp}, v, "generated_adversarial_names")
+
+    run_adv()
     return res
 
 
